@@ -50,6 +50,53 @@ def match_table(rel, fn, arm_re):
     return out
 
 
+DATA_API = "zcash_client_backend/src/data_api.rs"
+
+
+def _locked_version(crate):
+    lock = srcgen.read("Cargo.lock")
+    m = re.search(r'name = "%s"\nversion = "([^"]+)"' % re.escape(crate), lock)
+    if not m:
+        raise SrcgenError("crate %s not found in Cargo.lock" % crate)
+    return m.group(1)
+
+
+def _registry_file(crate, rel):
+    import glob
+    import os
+    v = _locked_version(crate)
+    hits = glob.glob(os.path.expanduser("~/.cargo/registry/src/*/%s-%s/%s" % (crate, v, rel)))
+    if len(hits) != 1:
+        raise SrcgenError("source of %s %s (%s) not found in the cargo registry" % (crate, v, rel))
+    return open(hits[0]).read()
+
+
+def shard_heights():
+    """SAPLING/ORCHARD/IRONWOOD_SHARD_HEIGHT = <crate>::NOTE_COMMITMENT_TREE_DEPTH / 2, the depth read from
+    the crate version pinned in Cargo.lock."""
+    sap = _registry_file("sapling-crypto", "src/tree.rs")
+    m = re.search(r"pub const NOTE_COMMITMENT_TREE_DEPTH\s*:\s*u8\s*=\s*(\d+)\s*;", sap)
+    if not m:
+        raise SrcgenError("sapling NOTE_COMMITMENT_TREE_DEPTH not found")
+    sap_depth = int(m.group(1))
+    orc_lib = _registry_file("orchard", "src/lib.rs")
+    if not re.search(r"pub use constants::MERKLE_DEPTH_ORCHARD as NOTE_COMMITMENT_TREE_DEPTH;", orc_lib):
+        raise SrcgenError("orchard NOTE_COMMITMENT_TREE_DEPTH is no longer MERKLE_DEPTH_ORCHARD")
+    orc = _registry_file("orchard", "src/constants.rs")
+    m = re.search(r"pub(?:\(crate\))? const MERKLE_DEPTH_ORCHARD\s*:\s*usize\s*=\s*(\d+)\s*;", orc)
+    if not m:
+        raise SrcgenError("orchard MERKLE_DEPTH_ORCHARD not found")
+    orc_depth = int(m.group(1))
+    src = srcgen.read(DATA_API)
+    out = {}
+    for name, crate, depth in (("SAPLING", "sapling", sap_depth), ("ORCHARD", "orchard", orc_depth), ("IRONWOOD", "orchard", orc_depth)):
+        m = re.search(r"pub const %s_SHARD_HEIGHT\s*:\s*u8\s*=\s*\{?\s*%s::NOTE_COMMITMENT_TREE_DEPTH(?: as u8)?\s*\}?\s*/\s*(\d+)\s*;" % (name, crate), src)
+        if not m:
+            raise SrcgenError("%s_SHARD_HEIGHT is not <crate>::NOTE_COMMITMENT_TREE_DEPTH / k in %s" % (name, DATA_API))
+        out[name] = depth // int(m.group(1))
+    return out
+
+
 class C15(Config):
     pid = "C15"
     proof_targets = ["C15/Properties.vo"]
@@ -64,7 +111,7 @@ class C15(Config):
     n_tags = None
     harness_timeout = 2400
     shard_size = 1200
-    classes = {1: "C15-empty-range-insert-panics"}
+    classes = {1: "C15-empty-range-insert-panics", 2: "C15-prune-leaves-adjacent-ignored"}
     rule = ("Part A (pure tree, public feature-gated API): every (leaf, insertion, force) triple exhaustively on a small height domain "
             "with all 7 priorities and empty ranges (quick 0..3, thorough 0..6), exhaustive range shapes for 2 insertions, random 3-5 "
             "insertion sequences, wallet-like sequences (sorted stored rows then updates, last possibly empty), long random sequences up "
@@ -77,30 +124,34 @@ class C15(Config):
     trusted_base = [
         "Coq 8.16.1 kernel, vm_compute (no native_compute)",
         "axioms: none (Print Assumptions audited on every theorem)",
-        "vlib/props/c15.py extractors (ScanPriority variant order under derive(Ord); priority_code / parse_priority_code tables; PRUNING_DEPTH, VERIFY_LOOKAHEAD)",
+        "vlib/props/c15.py extractors (ScanPriority variant order under derive(Ord); priority_code / parse_priority_code tables; PRUNING_DEPTH, VERIFY_LOOKAHEAD; the three *_SHARD_HEIGHT constants from data_api.rs and the tree depths of the sapling-crypto / orchard versions pinned in Cargo.lock)",
         "harness/wallet/src/bin/c15.rs printers and catch_unwind wrappers; vlib case-file generator",
         "hand transcription of spanning_tree.rs / scanning.rs (coq/C15/Model.v) and of wallet/scanning.rs, trim_scan_queue_to, fully_scanned_height (coq/C15/QModel.v), tied by the correspondence run",
         "SQLite itself and the SQL text of the queue statements (modelled as list filters/sorts; UNIQUE constraints modelled)",
         "part B context read back by the harness with its own SELECTs (blocks MAX(height), accounts MIN(birthday_height), *_tree_shards rows); "
         "in the low-level histories `blocks` rows are primed by INSERT to mimic put_blocks, the client-loop histories use real put_blocks",
-        "shard height 16 (SAPLING/ORCHARD/IRONWOOD_SHARD_HEIGHT) written by hand in QModel.v",
     ]
     assumptions = [
         "block heights are u32 (BlockHeight, saturating +/-); the tree performs only comparisons, min and max on them",
-        "tree theorems: every inserted range non-empty, except possibly the last one; the public tree API panics on some sequences "
-        "with an earlier empty range (known finding C15-empty-range-insert-panics, also reachable through WalletDb::queue_rescans)",
-        "queue theorems: the stored queue is canonical, the query range selects at least one stored row (touches: overlapping or adjacent), "
-        "entries lie inside the query range; update_chain_tip: wallet birthday is not exactly tip + 1 (then its ChainTip entry is empty and first)",
-        "termination: the database invariant 'no Scanned height above MAX(blocks.height)' for chain-tip updates; rewinds are accounted by "
-        "C15_trim (they re-open exactly the heights above the truncation height) and are not part of the inductive run",
+        "tree theorems: the inserted ranges are non-empty ones followed by any number of empty ones (inserting an empty range never "
+        "panics on any tree; the known finding C15-empty-range-insert-panics needs an empty range followed later by a non-empty one, "
+        "also reachable through WalletDb::queue_rescans)",
+        "queue theorems: the stored queue is canonical; the query range selects at least one stored row (touches: overlapping or adjacent) "
+        "or the table is empty; entries lie inside the query range; update_chain_tip: tip < u32::MAX",
+        "termination: the database invariant 'no Scanned height above MAX(blocks.height)' for chain-tip updates, and an account exists "
+        "(birthday known) at every chain-tip update of a run",
     ]
     partial_clauses = [
-        "queue_inv is proved per operation (replace_queue_entries, scan_complete, update_chain_tip, trim) for touching queries on a non-empty "
-        "canonical queue; the first insertion into an empty table, queue_rescans and prune_scan_queue_below are covered by the model and the "
-        "correspondence run only",
+        "prune_scan_queue_below is proved correct pointwise and contiguous, canonical except at the junction with the first untouched row "
+        "(known finding C15-prune-leaves-adjacent-ignored, witness proved); it is not part of the inductive run",
+        "queue_rescans: the exact set of panicking inputs inside the class 'an empty range followed later by a non-empty one' is not "
+        "characterised (sufficient condition for no panic + inverted-range panic + witness are proved)",
+        "C15_quiescent_full takes coverage of birthday and tip as hypotheses (coverage is shown preserved by scan and tip steps, and the "
+        "tip update is shown to cover its entries); the initial state (Ignored below the birthday, created by account creation) is an "
+        "assumption of the run, account creation is not modelled",
         "extend_range's shard lookups are modelled from the shard rows the harness reads back; mark_stabilized_notes is outside the model",
-        "at quiescence the theorem gives 'every covered height is Scanned or Ignored'; that no height between the birthday and the tip is "
-        "Ignored is checked on the client-loop runs (QLoop), not proved",
+        "queue-level bridge covers scan / chain-tip / rewind steps inside qdom (about 90% of those steps in the quick corpus); "
+        "rescan, prune and client-loop summary cases are checked by run_case and prop_case only",
     ]
 
     @staticmethod
@@ -146,6 +197,8 @@ class C15(Config):
         out.append(body + ".")
         out.append("Definition PRUNING_DEPTH : Z := %d." % pruning)
         out.append("Definition VERIFY_LOOKAHEAD : Z := %d." % lookahead)
+        for k, v in shard_heights().items():
+            out.append("Definition %s_SHARD_HEIGHT : Z := %d." % (k, v))
         srcgen.write_gen("C15Tables", "\n".join(out) + "\n")
 
 
